@@ -116,6 +116,9 @@ type scionWorld struct {
 	listeners     []*simnet.UDPConn
 	dc            *mockDaemon
 	useForwarder  bool // replies reach the client through the real end-host forwarder on 30041
+	// toEndhostPort: the routers hand every packet for the server to its end-host port 30041
+	// (where the service runs listeners of its own), whatever the L4 destination port
+	toEndhostPort bool
 
 	// every SCION packet seen at a router, in order
 	seen []*scionPkt
@@ -175,6 +178,20 @@ func (w *scionWorld) goSafe(tag string, f func()) {
 // when auth is set) and, when forwarder is set, one on the end-host port of the
 // client's host in dispatcher mode.
 func (w *scionWorld) startServers(n int, auth bool, dscp uint8, provider *ntske.Provider, forwarder bool) {
+	if auth && w.r.Tape.Bool(1, 3, "real-start") {
+		// the service's own start-up: StartSCIONServer opens the sockets (eight on the service
+		// port, eight on the end-host port), gives each listener its DRKey fetcher and starts
+		// the loops; the daemon it connects to is the world's
+		simnet.Daemon = func(string) daemon.Connector { return w.dc }
+		w.net.Setup = true
+		server.StartSCIONServer(context.Background(), quietLog(), "sim-daemon",
+			&net.UDPAddr{IP: net.ParseIP(scSrvIP), Port: scSvcPort}, dscp, provider)
+		w.net.Setup = false
+		w.r.Probe("listeners-started-by-the-service")
+		resetProm() // the forwarder below registers the same collectors again
+		w.startForwarder(server.VerifNewSCIONServerMetrics(), forwarder)
+		return
+	}
 	m := server.VerifNewSCIONServerMetrics()
 	for i := 0; i < n; i++ {
 		c, err := w.net.Listen(hp(scSrvIP, scSvcPort), true)
@@ -203,6 +220,10 @@ func (w *scionWorld) startServers(n int, auth bool, dscp uint8, provider *ntske.
 	w.goSafe("SE", func() {
 		server.VerifRunSCIONServer(context.Background(), quietLog(), m, ce, "", scSvcPort, dscp, fe, provider)
 	})
+	w.startForwarder(m, forwarder)
+}
+
+func (w *scionWorld) startForwarder(m *server.VerifSCIONServerMetrics, forwarder bool) {
 	w.useForwarder = forwarder
 	if forwarder {
 		cf, err := w.net.Listen(hp(scCliIP, scEndhost), false)
@@ -282,7 +303,7 @@ func (w *scionWorld) startRouter(i int, c *simnet.UDPConn) {
 			switch {
 			case p.toSrv:
 				dst = &net.UDPAddr{IP: net.ParseIP(scSrvIP), Port: port}
-				if port != scSvcPort && port != scEndhost {
+				if (port != scSvcPort && port != scEndhost) || w.toEndhostPort {
 					dst.Port = scEndhost // a border router delivers unknown ports to the end-host port
 				}
 			case dstIP.Unmap() == netip.MustParseAddr(scCliIP):
